@@ -8,18 +8,26 @@
 package main
 
 import (
+	"bufio"
 	"bytes"
 	"crypto/md5"
 	"encoding/binary"
 	"encoding/hex"
 	"fmt"
 	"math/rand"
+	"os"
+	"os/exec"
+	"runtime"
+	"strconv"
+	"strings"
 
 	"bngverif/coadrv"
 	"bngverif/hx"
 )
 
-type comp struct{}
+// comp: `replay`, when set, holds the observations an executor process produced for the next sequence
+// (thorough tier: the sequences are executed by a pool of processes, see Gen)
+type comp struct{ replay []string }
 
 var drivers = map[string]*coadrv.Driver{}
 
@@ -37,8 +45,28 @@ func driver(secret string) *coadrv.Driver {
 
 type run struct{}
 
-func (comp) NewRun() hx.Run { return run{} }
-func (run) Close()          {}
+// replayRun hands out observations recorded by an executor process, in order
+type replayRun struct {
+	obs []string
+	i   int
+}
+
+func (r *replayRun) Do(op string) string {
+	if r.i >= len(r.obs) {
+		return "harness-lost-observation"
+	}
+	r.i++
+	return r.obs[r.i-1]
+}
+func (r *replayRun) Close() {}
+
+func (c *comp) NewRun() hx.Run {
+	if c.replay != nil {
+		return &replayRun{obs: c.replay}
+	}
+	return run{}
+}
+func (run) Close() {}
 
 func unhex(s string) ([]byte, bool) {
 	if s == "-" {
@@ -116,7 +144,8 @@ func attrSets(r *rand.Rand) [][]byte {
 	}
 }
 
-func (comp) Gen(r *rand.Rand, tier string, emit func([]string)) {
+// generate produces the operation sequences of a tier (nothing is executed here)
+func generate(r *rand.Rand, tier string, emit func([]string)) {
 	thorough := tier == "thorough"
 	secrets := []string{"s3cret", "a", "testing123-a-much-longer-shared-secret-0123456789-0123456789-0123456789"}
 	policies := []string{"ack", "nak", "def"}
@@ -373,6 +402,277 @@ func (comp) Gen(r *rand.Rand, tier string, emit func([]string)) {
 	if len(seq) > 1 {
 		emit(seq)
 	}
+
+	if thorough {
+		deep(r, emit)
+	}
 }
 
-func main() { hx.Main(comp{}) }
+// deep is the exhaustive part of the thorough tier: for a few thousand signed base requests - every secret shape
+// (1 byte, NUL, high bytes, 64 and 200 bytes; an EMPTY secret cannot be configured, NewCoAServer refuses it), codes
+// 40/43 and the other RADIUS codes, 0..N attributes incl. vendor-specific, zero-length and maximum-length values,
+// identifiers spread over 0..255, every handler policy - EVERY single-bit flip of the whole datagram, EVERY
+// truncation, extension by 1..8 trailing bytes, and the length field set to EVERY value 0..len+4 (as is, re-signed
+// over the first L bytes, and padded to L bytes); plus a stream of random datagrams.
+func deep(r *rand.Rand, emit func([]string)) {
+	A := coadrv.Attr
+	secrets := []string{"s3cret", "a", "\x00", "\xff\xfe\x80\x01", "pass word", strings.Repeat("k", 64),
+		strings.Repeat("0123456789", 20), "testing123-a-much-longer-shared-secret-0123456789-0123456789-0123456789"}
+	policies := []string{"ack", "nak", "def", "long"}
+	rb := func(n int) []byte { b := make([]byte, n); r.Read(b); return b }
+	known := []byte{1, 4, 8, 11, 27, 28, 31, 44}
+	randAttrs := func() []byte {
+		var out []byte
+		for k := r.Intn(7); k > 0; k-- {
+			t := known[r.Intn(len(known))]
+			l := []int{0, 1, 3, 4, 4, 5, 12}[r.Intn(7)]
+			out = append(out, A(t, rb(l))...)
+		}
+		return out
+	}
+	shapes := func() [][]byte {
+		sets := attrSets(r)
+		many := []byte{}
+		for i := 0; i < 20; i++ {
+			many = append(many, A(byte(1+i), rb(1))...)
+		}
+		return append(sets,
+			A(26, cat(u32(9), []byte{1, 6}, rb(4))),                      // vendor-specific, one sub-attribute
+			cat(A(26, u32(311)), A(26, nil), A(26, []byte{0, 0, 0})),     // vendor-specific, short bodies
+			cat(A(1, nil), A(4, nil), A(8, nil), A(27, nil), A(44, nil)), // zero-length values
+			A(1, rb(253)),                       // maximum-length value
+			cat(A(44, rb(253)), A(31, rb(253))), // two maximum-length values
+			many,
+			randAttrs(), randAttrs(), randAttrs())
+	}
+	id := 0
+	nextID := func() byte { id += 37; return byte(id) } // 37 is odd: every identifier 0..255 comes up
+	dg := func(sec, pol string, d []byte) string {
+		return fmt.Sprintf("dg %s %s %s", hex.EncodeToString([]byte(sec)), pol, hexs(d))
+	}
+	exhaust := func(sec, pol string, p []byte) {
+		seq := []string{"new", dg(sec, pol, p)}
+		for bit := 0; bit < len(p)*8; bit++ {
+			m := append([]byte(nil), p...)
+			m[bit/8] ^= 1 << uint(bit%8)
+			seq = append(seq, dg(sec, pol, m))
+		}
+		for n := 0; n < len(p); n++ {
+			seq = append(seq, dg(sec, pol, p[:n]))
+		}
+		for k := 1; k <= 8; k++ {
+			seq = append(seq, dg(sec, pol, cat(p, bytes.Repeat([]byte{byte(k * 31)}, k))))
+		}
+		for L := 0; L <= len(p)+4; L++ {
+			m := append([]byte(nil), p...)
+			binary.BigEndian.PutUint16(m[2:4], uint16(L))
+			seq = append(seq, dg(sec, pol, m))
+			if L >= 20 && L <= len(m) {
+				copy(m[4:20], make([]byte, 16))
+				h := md5.New()
+				h.Write(m[:L])
+				h.Write([]byte(sec))
+				copy(m[4:20], h.Sum(nil))
+				seq = append(seq, dg(sec, pol, m))
+			}
+			if L > len(p) {
+				seq = append(seq, dg(sec, pol, append(append([]byte(nil), m...), make([]byte, L-len(p))...)))
+			}
+		}
+		emit(seq)
+	}
+	rounds := 34
+	if v, err := strconv.Atoi(os.Getenv("VERIF_COA_ROUNDS")); err == nil && v > 0 {
+		rounds = v
+	}
+	n := 0
+	for round := 0; round < rounds; round++ {
+		for _, sec := range secrets {
+			for ai, attrs := range shapes() {
+				big := len(attrs) > 120
+				if big && (round+ai)%3 != 0 { // the 2200-flip bases: a third of the rounds
+					continue
+				}
+				for _, code := range []byte{43, 40} {
+					n++
+					exhaust(sec, policies[n%4], coadrv.Sign(code, nextID(), attrs, sec))
+				}
+				if ai%4 == round%4 && !big {
+					other := []byte{1, 2, 3, 4, 5, 11, 12, 41, 42, 44, 45, 0, 255}[(round+ai)%13]
+					n++
+					exhaust(sec, policies[n%4], coadrv.Sign(other, nextID(), attrs, sec))
+				}
+			}
+		}
+	}
+	// random datagrams: mostly short, some up to 2 KiB, half of them with a plausible header
+	seq := []string{"new"}
+	for i := 0; i < 300000; i++ {
+		l := r.Intn(96)
+		switch r.Intn(20) {
+		case 0:
+			l = r.Intn(2049)
+		case 1, 2:
+			l = 20 + r.Intn(300)
+		}
+		d := rb(l)
+		if l >= 20 && r.Intn(2) == 0 {
+			d[0] = []byte{40, 43}[r.Intn(2)]
+			binary.BigEndian.PutUint16(d[2:4], uint16(l-r.Intn(3)))
+		}
+		seq = append(seq, dg(secrets[r.Intn(len(secrets))], policies[r.Intn(4)], d))
+		if len(seq) >= 500 {
+			emit(seq)
+			seq = []string{"new"}
+		}
+	}
+	if len(seq) > 1 {
+		emit(seq)
+	}
+}
+
+// ---------------------------------------------------------------------------------------------
+// Executing the sequences.  Quick: in this process.  Thorough: the sequences are dealt round-robin to a pool of
+// executor processes (`<bin> serve`, each with its own listeners, GOMAXPROCS=2) and their traces are emitted in
+// production order - the UDP request/response ping-pong of one listener is latency-bound, not CPU-bound.
+
+func serve(c *comp) {
+	sc := bufio.NewScanner(os.Stdin)
+	sc.Buffer(make([]byte, 1<<20), 1<<26)
+	w := bufio.NewWriterSize(os.Stdout, 1<<16)
+	var cur []string
+	flush := func() {
+		if len(cur) > 0 {
+			hx.ExecSeq(c, cur, w)
+			cur = nil
+		}
+	}
+	for sc.Scan() {
+		line := strings.TrimRight(sc.Text(), "\r\n")
+		if strings.TrimSpace(line) == "" {
+			flush()
+			continue
+		}
+		cur = append(cur, line)
+	}
+	flush()
+	w.Flush()
+}
+
+type child struct {
+	cmd  *exec.Cmd
+	jobs chan []string
+	out  chan []string
+}
+
+func startChild() *child {
+	cmd := exec.Command(os.Args[0], "serve")
+	cmd.Env = append(os.Environ(), "GOMAXPROCS=2")
+	cmd.Stderr = os.Stderr
+	in, err := cmd.StdinPipe()
+	if err != nil {
+		panic(err)
+	}
+	out, err := cmd.StdoutPipe()
+	if err != nil {
+		panic(err)
+	}
+	if err := cmd.Start(); err != nil {
+		panic(err)
+	}
+	ch := &child{cmd: cmd, jobs: make(chan []string, 8), out: make(chan []string, 8)}
+	go func() { // feed
+		w := bufio.NewWriterSize(in, 1<<16)
+		for seq := range ch.jobs {
+			for _, op := range seq {
+				w.WriteString(op)
+				w.WriteByte('\n')
+			}
+			w.WriteByte('\n')
+			w.Flush()
+		}
+		in.Close()
+	}()
+	go func() { // collect
+		sc := bufio.NewScanner(out)
+		sc.Buffer(make([]byte, 1<<20), 1<<26)
+		var cur []string
+		for sc.Scan() {
+			line := sc.Text()
+			if line == "" {
+				if cur != nil {
+					ch.out <- cur
+					cur = nil
+				}
+				continue
+			}
+			if i := strings.Index(line, " => "); i >= 0 {
+				cur = append(cur, line[i+4:])
+			}
+		}
+		close(ch.out)
+	}()
+	return ch
+}
+
+func (c *comp) Gen(r *rand.Rand, tier string, emit func([]string)) {
+	if os.Getenv("VERIF_COA_COUNT") != "" { // size of the generated set, nothing executed
+		n, ops := 0, 0
+		generate(r, tier, func(seq []string) { n++; ops += len(seq) })
+		fmt.Fprintf(os.Stderr, "sequences=%d ops=%d\n", n, ops)
+		return
+	}
+	if tier != "thorough" {
+		generate(r, tier, emit)
+		return
+	}
+	nw := runtime.NumCPU()
+	if v, err := strconv.Atoi(os.Getenv("VERIF_COA_WORKERS")); err == nil && v > 0 {
+		nw = v
+	}
+	children := make([]*child, nw)
+	for i := range children {
+		children[i] = startChild()
+	}
+	type job struct {
+		seq []string
+		ch  *child
+	}
+	// bounded channels everywhere; dealt and collected in the same round-robin order, so the collector always
+	// waits for the oldest outstanding sequence, whose input its feeder has already flushed: no deadlock
+	ordered := make(chan job, 4*nw)
+	go func() {
+		n := 0
+		generate(r, tier, func(seq []string) {
+			ch := children[n%nw]
+			n++
+			ordered <- job{seq, ch}
+			ch.jobs <- seq
+		})
+		for _, ch := range children {
+			close(ch.jobs)
+		}
+		close(ordered)
+	}()
+	for j := range ordered {
+		obs, ok := <-j.ch.out
+		if !ok {
+			panic("coa: an executor process died")
+		}
+		c.replay = obs
+		emit(j.seq)
+	}
+	c.replay = nil
+	for _, ch := range children {
+		ch.cmd.Wait()
+	}
+}
+
+func main() {
+	c := &comp{}
+	if len(os.Args) > 1 && os.Args[1] == "serve" {
+		serve(c)
+		return
+	}
+	hx.Main(c)
+}
